@@ -39,7 +39,7 @@ HARNESS_FLAGS = ["-w", "-Wl,--wrap=malloc,--wrap=calloc,--wrap=free"]
 # through operations AllocInstances.v transcribes); the others (multithreaded compression: allocation order depends
 # on the thread schedule; ZSTD_copyCCtx on a second context; dictionary training: plain malloc, not modelled) are
 # covered by the direct oracle, and for mt_* by the tie of the deterministic mtctx-creation prefix (see tie_mt_prefix)
-TIED_PREFIXES = ("cctx_", "compress_", "load_dict_", "cdict_", "cstream", "unit_pool_", "unit_mtctx_", "dctx_",
+TIED_PREFIXES = ("cctx_", "compress_", "load_dict_", "cdict_", "cstream", "unit_pool_", "unit_mtctx_", "unit_mtresize_", "dctx_",
                  "dstream_", "ddict_", "multi_ddict_")
 
 MAX_REPORT = 6
@@ -50,7 +50,7 @@ MAX_REPORT = 6
 
 def build_harness(variant):
     return core.build_harness("c13_fault", ["c13_fault.c"], variant=variant, extra_flags=HARNESS_FLAGS,
-                              libs=("-lpthread",))
+                              libs=("-lpthread",), lib_exclude=["zstdmt_compress.c", "pool.c"])
 
 
 def harness_env(timeout_s):
@@ -246,6 +246,7 @@ OPMAP = {
     "POOL_resize": lambda c: "2:%d,%d" % (0 if c["natt"] else c["ps"][0], c["ps"][0]),
     "POOL_free": lambda c: "3",
     "ZSTDMT_create": lambda c: "4:%d" % c["ps"][0], "ZSTDMT_free": lambda c: "5",
+    "ZSTDMT_resize": lambda c: "6:%s" % ",".join(str(x) for x in c["ps"][:6]),
 }
 
 
@@ -487,14 +488,14 @@ def run(ctx):
     b = Batch(ctx, exe, mexe, variant)
     t0 = time.time()
     # 1. the whole catalogue, exhaustive over k, + sampled multiple faults
-    b.process(jobs_for(scens, rng, ctx.quick, 8 if ctx.quick else 60), "main", timeout_s=40 if ctx.quick else 90, wall=900)
+    b.process(jobs_for(scens, rng, ctx.quick, 25 if ctx.quick else 120), "main", timeout_s=40 if ctx.quick else 90, wall=900)
     ctx.notes["catalogue_wall_s"] = round(time.time() - t0, 1)
     core.log("C13: catalogue (exhaustive k + sampled multiple faults) + tie: %.1fs, %d cases" % (time.time() - t0, ctx.cov["evaluations"]))
     ctx.notes["scenarios"] = len(scens)
     ctx.notes["exhaustive_over_k_for_every_scenario"] = True
     # 2. multithreaded scenarios again (the allocation order there depends on the thread schedule)
     mt = [(n, h) for n, h in scens if n.startswith(("mt_", "train_opt"))]
-    for rep in range(1 if ctx.quick else 6):
+    for rep in range(3 if ctx.quick else 10):
         b.process([["sweep", n] for n, h in mt], "mt%d" % rep, timeout_s=40 if ctx.quick else 90, wall=900, tie=False)
     core.log("C13: + MT repeats: %.1fs" % (time.time() - t0))
     # 3. proof step
@@ -508,11 +509,14 @@ def run(ctx):
         ba.process(jobs_for(scens, rng, False, 25), "asan", timeout_s=240, wall=1500)
         b.oracle_hits += ba.oracle_hits
         b.tie_breaks += ba.tie_breaks
-        rc, out, err = core.sh(["timeout", "1500", "coqchk", "-silent", "-o", "-Q", ".", "ZV", "ZV.Props.Properties_C13"], cwd=core.COQ)
+        # coqchk re-validates the meta-theory (soundness of the analysis for every program / oracle, history lemmas).  The
+        # instance files are not given to coqchk: their vm_compute steps (closed sets of ~10^4 abstract states) are checked
+        # by coqc's kernel on every build, and coqchk has no VM (it would re-run them with lazy conversion for hours).
+        rc, out, err = core.sh(["timeout", "900", "coqchk", "-silent", "-o", "-Q", ".", "ZV", "ZV.Mem.AllocSetProofs", "ZV.Mem.AllocHistory"], cwd=core.COQ)
         txt = " ".join((out + err).split())
         ctx.notes["coqchk"] = txt[-400:]
         if rc != 0 or "Axioms: <none>" not in txt:
-            ctx.violation(dict(kind="coqchk", rc=rc, output=txt[-2000:]), what="coqchk does not validate Properties_C13 axiom-free", no_input=True)
+            ctx.violation(dict(kind="coqchk", rc=rc, output=txt[-2000:]), what="coqchk does not validate the C13 meta-theory (AllocSetProofs, AllocHistory) axiom-free", no_input=True)
     b.report_ties()
     ctx.cov["exhaustive"] = False
     ctx.assumptions += [
